@@ -6,6 +6,26 @@ ALL = ["C%02d" % i for i in range(1, 21)]
 
 # property -> dict(level, text, note, technique, engine, design_ref)
 CLAIMED = {
+  "C13": dict(level="exploration", engine="E4",
+    text="Bounded-exhaustive order enumeration: 10 small projects, each isolating one order-sensitive mechanism (utils through composite rules, utils through relational rules/stopBy/nthChild.ofRule, chained transforms, constraints x3, rewriters, rule files + utilDirs, languageGlobs x2); ALL permutations of the textual key/list/file-name order (quick 50, thorough 162) x owned hash seeds 0..S (quick 9, thorough 49) x 2 launches (-j 1 / default threads); in every cell scan --json=stream, test --update-all + test, scan --update-all run on the real binary (quick 3 386 / thorough 61 546 CLI runs); the canonical finding multiset (rule id, file, byte range, text, message, severity, note, replacement, offsets), exit codes, snapshot bytes and sources after -U must be identical across each project's whole grid.",
+    note="Hash seeds are owned through the LD_PRELOAD getrandom shim (a failing cell replays identically); the evidence reports how many distinct raw stdout orderings the seed sweep produced per project; metaVariables ranges in JSON records are counted, not judged; thread scheduling beyond -j 1 vs default is C17's subject.",
+    technique="exhaustive enumeration of key-order permutations x owned HashMap seeds x relaunch against the real binary; constancy oracle along rerun / hash-seed / text-order edges",
+    design_ref="DESIGN.md §3 C13, Appendix B.3"),
+  "C15": dict(level="exploration", engine="E1-CLI",
+    text="Bounded-exhaustive CLI grid: every (layout over 4 directories x 5 extensions, languageGlobs setting, files/ignores combination from a closed glob list, severity assignment, override command line incl. per-id flags, bare flags and --filter) of a factorised space is run through the real `ast-grep scan --json=stream` from the project root and compared with the reference selector ref_select on every (file, rule id) pair and on the exit-code class; quick 1 505 runs / 58 215 pair decisions, thorough 16 131 runs / 585 183.",
+    note="Union of complete cross products (factorisation stated in the evidence), not one global product; statement-silent cases are kept out by alphabet guards (one id on two flags, two bare flags, --filter matching nothing, globs where `*` crossing `/` matters, languageGlobs contradicting the extension table); bare + per-id flag precedence judged as per-id wins.",
+    technique="bounded-exhaustive enumeration of configurations x project layouts on the real binary, differential against a reference selector",
+    design_ref="DESIGN.md §3 C15, Appendix A.4"),
+  "C18": dict(level="model_checking", engine="E1-BFS-CLI",
+    text="Explicit-state model checking over file-tree states: every command sequence of length <= 3 (thorough 4) over 5 (9) commands (`scan -U` with a multi-document rule file / a project / inline rules / --filter, `run -p -r [-l] -U` incl. a self-re-matching rewrite) from 5 (7) initial projects covering overlapping and disjoint fixes by several rules in one file, CRLF + multi-byte, an .html file with host and <script> fixes, adjacent edits and no-match files; states deduplicated by tree hash; every transition (quick 250 / thorough 7 416) is executed by the real binary twice (--json=stream on one copy, -U on another) and the complete resulting tree and the `Applied N changes` count are compared with the reference splice of the announcement.",
+    note="Exhaustive within depth and alphabet; states at the depth bound are reached but not expanded; the acceptance order among overlapping edits of different rules is left free where --json itself is hash-ordered (document order or any rule-group order accepted; 0 unjudged cases observed); offsets/text of the announcement are taken as given (C08 relates them to the rule).",
+    technique="explicit-state BFS with state hashing over CLI command histories; differential oracle (reference splice of --json announcement vs. on-disk tree)",
+    design_ref="DESIGN.md §3 C18"),
+  "C20": dict(level="exploration", engine="E1",
+    text="Bounded-exhaustive exploration of the small notations: (a) every spelling $^k name (k<=3, name <= 3 symbols over {A,a,1,_}) alone and in a per-language carrier pattern in all 23 languages, judged whenever the grammar reads the spelling as one leaf, against a reference classifier; (b) every An+B string <= 5 (thorough 6) symbols over {n,N,+,-,0,1,2,9,space} plus long digit runs through the real nthChild rule on 12 siblings x reverse against unbounded-integer semantics; (c) substring on every text <= 4 chars over {a,é,crab} x 14x14 start/end pairs through the real transform path against Python slices; (d) every fix template <= 6 (thorough 7) symbols over {$,A,b,1,_,space}: used_vars and output against a reference scanner.",
+    note="Spellings the statement does not fix are counted, not judged (sigil-free names containing `_`, digit-first names after a sigil, underscore-first names in templates); formulas whose coefficients exceed 32 bits may be refused with an error but must not crash.",
+    technique="bounded-exhaustive enumeration of notation strings against reference models",
+    design_ref="DESIGN.md §3 C20, Appendix A.5"),
   "C10": dict(level="model_checking", engine="E1-BFS",
     text="Explicit-state model checking over edit histories: states are document texts, transitions are edits (every char-boundary position x deletions {0,1,2,node length} x a 9-string insertion alphabet incl. newline and multi-byte, plus AstGrep::replace from real matches) executed by the real AstGrep::edit/replace; breadth-first to depth 2 (thorough 3) from corpus snippets and generated error-free programs in 7 (thorough 14) languages; after every transition source() must equal the reference splice and, when the new text parses without errors, the incremental tree (kind, named, byte range, points of every node) must equal a fresh parse. ~2e6 transitions in the quick tier, all executed on the implementation.",
     note="States with equal text are merged (sound while the invariant holds: the tree then is the fresh tree); deeper levels expand only error-free states below a length cap stated in the evidence; tree-sitter's own incremental parser is part of the subject.",
